@@ -355,10 +355,10 @@ func reach(fn *ssa.Function, start ssa.Instruction, cut func(from, to *ssa.Basic
 	}
 	// uniqueSite: the single call site of a top-level helper the reference tree does not have
 	uniqueSite := func(g *ssa.Function) ssa.Instruction {
-		if g == nil || g.Parent() != nil || !gNewFuncs[g] || len(gCallSitesOf[g]) != 1 {
+		if g == nil || g.Parent() != nil || !gNewFuncs[g] || len(sitesOf(g)) != 1 {
 			return nil
 		}
-		if cs := gCallSitesOf[g][0]; cs.Common().StaticCallee() == g {
+		if cs := sitesOf(g)[0]; cs.Common().StaticCallee() == g {
 			if _, isGo := cs.(*ssa.Go); !isGo {
 				if _, isDefer := cs.(*ssa.Defer); !isDefer {
 					return cs
@@ -978,7 +978,7 @@ func valueOrigins(fn *ssa.Function, v ssa.Value, f func(root ssa.Value)) {
 		case *ssa.Parameter:
 			// a parameter of a helper the reference tree does not have stands for the arguments of its
 			// call sites (canon.go)
-			if h := y.Parent(); !gOriginsLocal && h != nil && h.Parent() == nil && gNewFuncs[h] && len(gCallSitesOf[h]) > 0 {
+			if h := y.Parent(); !gOriginsLocal && h != nil && h.Parent() == nil && gNewFuncs[h] && len(sitesOf(h)) > 0 {
 				idx := -1
 				for i, q := range h.Params {
 					if q == y {
@@ -986,7 +986,7 @@ func valueOrigins(fn *ssa.Function, v ssa.Value, f func(root ssa.Value)) {
 					}
 				}
 				done := false
-				for _, s := range gCallSitesOf[h] {
+				for _, s := range sitesOf(h) {
 					if args := s.Common().Args; idx >= 0 && idx < len(args) && s.Common().StaticCallee() == h {
 						rec(args[idx])
 						done = true
